@@ -243,7 +243,7 @@ func TestVX_C05(t *testing.T) {
 		return
 	}
 	var cfgs []vxCfg
-	for _, mp := range []string{"identity", "readme", "quant5"} {
+	for _, mp := range []string{"identity", "readme", "quant5", "compress"} {
 		for _, algo := range []string{"direct", "direct:10", "pid"} {
 			cfgs = append(cfgs, vxCfg{Kind: "hwmon", Min: -1, Max: -1, Map: mp, Algo: algo, StartPwm: 77, StartMode: 2})
 			cfgs = append(cfgs, vxCfg{Kind: "hwmon", NeverStop: true, Min: 50, Max: 200, Map: mp, Algo: algo, StartPwm: 0, StartMode: 1})
@@ -253,10 +253,19 @@ func TestVX_C05(t *testing.T) {
 	}
 	deadline := mc.Deadline(45*time.Second, 12*time.Minute)
 	synctest.Test(t, func(t *testing.T) {
-		for ci, cfg := range cfgs {
-			if !mc.Mine(ci) {
-				continue
+		var mine []int
+		for ci := range cfgs {
+			if mc.Mine(ci) {
+				mine = append(mine, ci)
 			}
+		}
+		for mi, ci := range mine {
+			cfg := cfgs[ci]
+			slice := deadline.Sub(mc.RealNow()) / time.Duration(len(mine)-mi)
+			if slice < 300*time.Millisecond {
+				slice = 300 * time.Millisecond
+			}
+			cfgDeadline := mc.RealNow().Add(slice)
 			alpha := vxC05Alphabet(cfg)
 			fx := vxNewFixRole(cfg, "search")
 			toSyms := func(path []int, extra int) []vxC05Sym {
@@ -272,7 +281,7 @@ func TestVX_C05(t *testing.T) {
 			keyOf := func(fx *vxFix, h *vxC05Hist) string {
 				return fmt.Sprintf("%s dirty=%v touched=%v", fx.vxStateKey(), h.Dirty, h.PwmTouched)
 			}
-			o := mc.BFSOpts{NSym: len(alpha), Deadline: deadline, MaxStates: 30000}
+			o := mc.BFSOpts{NSym: len(alpha), Deadline: cfgDeadline, MaxStates: 30000}
 			if vxIsPid(cfg.Algo) {
 				o.MaxDepth = 3
 				if mc.Thorough() {
